@@ -17,7 +17,7 @@ RULE = ("split_sync: all 65536 int16 words (exhaustive) in natural, shuffled, co
         "step amplitudes and analog thresholding. Non-trivial: a train with >= 3 events on >= 2 lines; distinct = distinct "
         "(layout | file kind, line subset, slice, dtype) signature")
 ASSUMPTIONS = ["one digital sync word per sample (as in every fixture); 0/1 trains are given as signed or floating arrays"]
-REQUIRED = {"words_checked": 65536, "read_sync_checked": 10, "fronts_checked": 100, "fronts_2d_checked": 100, "analog_lines_checked": 4}
+REQUIRED = {"words_checked": 65536, "read_sync_checked": 10, "fronts_checked": 100, "fronts_2d_checked": 100, "strided_sync_checked": 20, "analog_lines_checked": 4}
 CASE_TIMEOUT = 120.0
 EXHAUSTIVE = "split_sync over all 65536 words x 16 bits"
 
@@ -137,6 +137,20 @@ def run_case(case):
                           f"(shape {sy.shape} vs {exp.shape})", counter="read_sync_checked")
             dat, sy = sr.read(nsel=slice(10, 200), sync=True)
             res.check(np.array_equal(sy, T[10:200]) and dat.shape == (190, rec.nc), "read:sync=True", "read(sync=True) sync part differs")
+            # strided and reversed selections: one sync row per selected sample, in the order of the selection
+            # (the fronts of a reversed read are the mirrored events with opposite polarity)
+            for sl in (slice(None, None, -1), slice(ns - 1, None, -int(rng.integers(2, 9))), slice(int(ns * 0.9), int(ns * 0.1), -1),
+                       slice(int(ns * 0.7), int(ns * 0.2), -int(rng.integers(2, 6))), slice(3, ns, int(rng.integers(2, 7)))):
+                kcont = "cbin" if use_c else "bin"
+                exp = T[sl]
+                sy = sr.read_sync(sl)
+                res.check(sy.shape == exp.shape and np.array_equal(sy, exp), f"read_sync:strided:{kcont}:{'reversed' if sl.step < 0 else 'forward'}",
+                          f"{kind} {kcont} read_sync({sl}): shape {sy.shape} expected {exp.shape}, rows equal: {sy.shape == exp.shape and np.array_equal(sy, exp)}",
+                          counter="strided_sync_checked")
+                dat, sy2 = sr.read(nsel=sl, sync=True)
+                res.check(sy2.shape == exp.shape and np.array_equal(sy2, exp) and dat.shape[0] == exp.shape[0],
+                          f"read:sync=True:strided:{kcont}:{'reversed' if sl.step < 0 else 'forward'}",
+                          f"{kind} {kcont} read({sl}, sync=True): sync part {sy2.shape} / data {dat.shape}, expected {exp.shape[0]} rows equal to the written lines")
             full = sr.read_sync(slice(0, ns))
             for ln in range(16):
                 pos, pol = ev.get(ln, (np.array([], int), np.array([], int)))
